@@ -2,6 +2,7 @@ package main
 
 import (
 	"fmt"
+	"go/types"
 	"sort"
 	"strings"
 
@@ -319,8 +320,18 @@ func checkC14(c *Ctx, r *Report) {
 	nsend := 0
 	for _, f := range li.Fns {
 		eachInstr(f, func(in ssa.Instruction) {
-			if _, ok := in.(*ssa.Send); ok && strings.HasPrefix(originPkgPath(f), "reservoir/cache") {
+			if !strings.HasPrefix(originPkgPath(f), "reservoir/cache") {
+				return
+			}
+			switch x := in.(type) {
+			case *ssa.Send:
 				nsend++
+			case *ssa.Select:
+				for _, st := range x.States {
+					if st.Dir == types.SendOnly {
+						nsend++
+					}
+				}
 			}
 		})
 	}
